@@ -407,3 +407,14 @@ func lenOfBig(p m.Packet) int {
 	}
 	return 0
 }
+
+// FuzzC04Frame is the coverage-guided version of c04-damaged-frame-decodes-as-specified
+// (thorough tier): what the library and the reference both accept must decode to the same values.
+func FuzzC04Frame(f *testing.F) {
+	fuzzFrameSeeds(f)
+	f.Fuzz(func(t *testing.T, data []byte, sel uint8) {
+		if c, ok := fuzzFrameCase(data, sel); ok {
+			subC04Damaged.Check(t, c)
+		}
+	})
+}
